@@ -94,6 +94,12 @@ fn variants(rng: &mut Rng, k: u32) -> Vec<(&'static str, String)> {
         ("trap-child-signal", format!("trap 'echo got{k}' USR1; ( kill -s USR1 $$; echo sent ); ( echo c{k} ); echo \"?=$?\"; trap - USR1")),
         ("trap-child-signal", format!("trap ': got' USR1 TERM; v=$(kill -s TERM $$; kill -s USR1 $$; echo a{k}); w=$(echo b; rc 3); echo \"$v$w ?=$?\"; {{ echo p{k}; }} | cat; trap - USR1 TERM")),
                 ("kill-child", "{ nap 200; echo never >nf; } & p=$!; kill -s TERM $p; wait $p; echo \"?=$?\"".to_string()),
+        // the signal is caught - hence blocked - in the shell, and the child inherits
+        // both: sent before the child has reset its traps, the signal stays pending
+        // until the child unblocks it, and kills it then; the shell hears of it
+        // (TERM and HUP: their numbers, which show in `$?`, are the same on both sides)
+        ("kill-child-trapped", format!("trap 'echo T{k}' {sg}; {{ nap 200; echo never >nf; }} & p=$!; kill -s {sg} $p; wait $p; echo \"?=$?\"; trap - {sg}", sg = rng.pick(&["TERM", "HUP"]))),
+        ("kill-child-trapped", format!("trap 'echo T{k}' TERM; ( nap 200; echo never >nf ) & kill -s TERM $!; wait; echo \"?=$?\"; trap - TERM")),
         ("umask", format!("umask {}; echo w{k} >m{k}; umask 022", rng.pick(&["027", "077", "002"]))),
         ("dir-as-file", format!("echo w{k} >d; echo \"?=$?\"")),
         ("dir-as-file", format!("echo w{k} >>d; echo \"?=$?\"; echo v{k} >|empty; echo \"?=$?\"")),
